@@ -34,8 +34,8 @@ func (s *rwSpy) take(b string) (int, error) {
 	return n, io.ErrClosedPipe
 }
 
-func (s *rwSpy) Header() http.Header { return s.hdr }
-func (s *rwSpy) WriteHeader(c int)   { s.log = append(s.log, fmt.Sprintf("H%d", c)) }
+func (s *rwSpy) Header() http.Header         { return s.hdr }
+func (s *rwSpy) WriteHeader(c int)           { s.log = append(s.log, fmt.Sprintf("H%d", c)) }
 func (s *rwSpy) Write(b []byte) (int, error) { return s.take(string(b)) }
 
 // WriteString makes the spy an io.StringWriter, as net/http's and httptest's writers are: a string written
